@@ -113,8 +113,17 @@ static const char* chan_name(struct channel* c, int* stream)
     *stream = -1;
     return "?";
 }
+/* outstanding write mappings, per channel (single-writer discipline) */
+static struct { struct channel* c; int outstanding; int tid; } g_wm[16];
+static int wm_slot(struct channel* c)
+{
+    for (int i = 0; i < 16; ++i) if (g_wm[i].c == c) return i;
+    for (int i = 0; i < 16; ++i) if (!g_wm[i].c) { g_wm[i].c = c; return i; }
+    return -1;
+}
 void __wrap_channel_write_unmap(struct channel* self)
 {
+    { int k = wm_slot(self); if (k >= 0 && g_wm[k].tid == vs_self()) g_wm[k].outstanding = 0; }
     int s;
     const char* nm = chan_name(self, &s);
     size_t head0 = self->head, mapped = self->mapped;
@@ -134,6 +143,7 @@ void __wrap_channel_abort_write(struct channel* self)
     int s;
     const char* nm = chan_name(self, &s);
     __real_channel_abort_write(self);
+    { int k = wm_slot(self); if (k >= 0 && g_wm[k].tid == vs_self()) g_wm[k].outstanding = 0; }   /* the owner cancelled its mapping */
     printf("C s%d abort_write %s\n", s, nm);
 }
 
@@ -148,6 +158,17 @@ void* __wrap_channel_write_map(struct channel* self, size_t nbytes)
     const char* nm = chan_name(self, &s);
     printf("W s%d %s wmap-enter n=%zu\n", s, nm, nbytes);
     void* p = __real_channel_write_map(self, nbytes);
+    if (p) {
+        /* the channel has ONE write cursor: a second thread mapping for write before the first has unmapped is handed the same
+           bytes (the ring theorems C01-C03 assume one writer; this checks that the runtime keeps to it) */
+        int k = wm_slot(self);
+        if (k >= 0) {
+            if (g_wm[k].outstanding && g_wm[k].tid != vs_self())
+                printf("V s%d %s two-writers off=%zu n=%zu first=t%d second=t%d\n", s, nm, (size_t)((uint8_t*)p - self->data), nbytes, g_wm[k].tid, vs_self());
+            g_wm[k].outstanding = 1;
+            g_wm[k].tid = vs_self();
+        }
+    }
     if (p) printf("W s%d %s wmap ok off=%zu n=%zu\n", s, nm, (size_t)((uint8_t*)p - self->data), nbytes);
     else printf("W s%d %s wmap null n=%zu\n", s, nm, nbytes);
     return p;
